@@ -71,6 +71,21 @@ def run(ck):
         Jc = rng.randint(-4, 4) / 4.0
         D = [[rng.randint(-3, 3) * 1.0 for _ in range(3)] for _ in range(nmol)]
         inp = {"nmol": nmol, "modes": spec, "E": E, "J": Jc, "D": D}
+        if h % 3 == 1:
+            # Huang-Rhys factors that no earlier system of this run has used (the package tabulates overlaps per displacement)
+            for ms_ in spec:
+                for md_ in ms_:
+                    md_["HR"] = round(0.31 + 0.013 * h + 0.001 * len(ms_), 6)
+            inp = {"nmol": nmol, "modes": spec, "E": E, "J": Jc, "D": D}
+            # the script has used a small operator factory with the same displacements before (as the package's own example does)
+            try:
+                from quantarhei.qm.oscillators.ho import operator_factory as _of
+                for ms_ in spec:
+                    for md_ in ms_:
+                        _of(N=4).shift_operator(math.sqrt(2.0 * md_["HR"])); _of(N=4).shift_operator(-math.sqrt(2.0 * md_["HR"]))
+                inp["small_operator_factory_used_before"] = True
+            except Exception:
+                pass
         try:
             mols = []
             for m in range(nmol):
@@ -157,6 +172,9 @@ def run(ck):
                     gmodes.append((m, k, sm0, sm1, md))
                     # Poisson law of the overlaps from the vibrational ground state
                     Dm = numpy.real(ops.shift_operator(sm0.shift - sm1.shift))
+                    if Dm.shape[0] < 24:
+                        ck.fail("displaced-oscillator", "the 100-level operator factory handed out a %dx%d shift operator" % Dm.shape, dict(inp, S=md["HR"]), list(Dm.shape), [100, 100])
+                        Dm = numpy.array(displaced_overlaps(math, (sm0.shift - sm1.shift) / math.sqrt(2.0), 30))
                     S = md["HR"]
                     for nq in range(6):
                         p = math.exp(-S) * S ** nq / math.factorial(nq)
@@ -219,6 +237,17 @@ def run(ck):
             if bad:
                 ck.fail("product:%s" % bad[0], "%s element between vibronic states is not the electronic quantity times the product of the modes' overlaps" % bad[0],
                         dict(inp, states=[states[bad[1]], states[bad[2]]]), bad[3], bad[4])
+            # ---- a history: the aggregate diagonalises itself; the operators handed out afterwards are the same vibronic operators -------
+            if h % 3 == 0 and phase == phases[-1]:
+                try:
+                    agg.diagonalize()
+                    D_after = numpy.array(agg.get_TransitionDipoleMoment().data)
+                    H_after = numpy.array(agg.get_Hamiltonian().data)
+                    if numpy.abs(D_after - DD).max() > 1e-12 or numpy.abs(H_after - HH).max() > 1e-12:
+                        ck.fail("product:after-diagonalize", "the dipole operator / Hamiltonian handed out after Aggregate.diagonalize() is no longer the vibronic "
+                                "operator built from the overlaps", inp, [float(numpy.abs(D_after - DD).max()), float(numpy.abs(H_after - HH).max())])
+                except Exception as e:
+                    ck.fail("raises:diagonalize", "diagonalize / operator access raised %r" % (e,), inp)
             # ---- model line ---------------------------------------------------------------------------------------
             shifts = sorted(set(round(sm.shift, 15) for (_, _, sm0, sm1, _) in gmodes for sm in (sm0, sm1)))
             L = max([1] + [max(md["n0"], md["n1"]) for ms in spec for md in ms])
@@ -238,6 +267,27 @@ def run(ck):
             lines.append(" ".join(line.split()))
             impl.append("%d ; %s ; %s ; %s ; %s" % (Ntot, " ".join(states), " ".join(frac(x) for x in HH.flatten()),
                                                       " ".join(frac(x) for x in DD[:, :, 0].flatten()), " ".join(frac(x) for x in FC.flatten())))
+    # ---- single molecules, level counts beyond the 20 of the Franck-Condon table: as many vibronic states as declared -------------------
+    for hm_ in range(ck.n(3, 10)):
+        counts = [[(22, 2), (3, 2)], [(1, 25), (2, 1)], [(21, 1), (24, 3)]][hm_ % 3] if hm_ < 3 else [(rng.randint(1, 26), rng.randint(1, 3)) for _ in range(2)]
+        inpm = {"molecule": "two electronic states, two modes", "declared_levels_(ground,excited)_per_mode": counts}
+        try:
+            mol = Molecule([0.0, 10.0])
+            for (g_, e_) in zip(*[[c[0] for c in counts], [c[1] for c in counts]]) if False else counts:
+                md_ = Mode(frequency=0.5); mol.add_Mode(md_)
+                md_.set_nmax(0, g_); md_.set_nmax(1, e_); md_.set_HR(1, 0.2)
+            dimw = 1
+            dime = 1
+            for (g_, e_) in counts:
+                dimw *= g_; dime *= e_
+            Hm_ = mol.get_Hamiltonian()
+            got_n = [(int(mol.get_Mode(k_).get_nmax(0)), int(mol.get_Mode(k_).get_nmax(1))) for k_ in range(len(counts))]
+            ck.case(("molecule-levels", str(counts)), nontrivial=True, second_build=False, nmol=1, modes=len(counts), Ntot=0)
+            if Hm_.dim != dimw + dime or got_n != [tuple(c) for c in counts]:
+                ck.fail("level-count:molecule", "a molecule does not carry as many vibronic states as the product of the declared level counts", inpm,
+                        [int(Hm_.dim), got_n], [dimw + dime, counts])
+        except Exception as e:
+            ck.fail("raises:molecule-levels", "molecule with many vibrational levels raised %r" % (e,), inpm)
     model = ck.drive(DRIVER, lines)
     if model is not None:
         for l, a, b in zip(lines, impl, model):
